@@ -335,7 +335,7 @@ def serialise(edit, paths, depth=0):
         return ("...",)
     exhaust(edit)
     b = edit.bounds()
-    cost = (b.lower_bound if b.definitive() else (str(b.lower_bound), str(b.upper_bound)))
+    cost = (int(b.lower_bound) if b.definitive() else (str(b.lower_bound), str(b.upper_bound)))
     kids = ()
     compound = isinstance(edit, CompoundEdit)
     if compound:
@@ -350,6 +350,15 @@ def annotations(ret, paths):
         if isinstance(n, gtree.EditedTreeNode):
             out.append((paths.key(n), bool(n.removed), len(n.inserted), paths.key(n.matched_to)))
     return tuple(out)
+
+
+def _is_descriptor_cache(cls, name):
+    """An instance-dict entry that shadows a class-level descriptor of the same name (functools.cached_property
+    stores its memo that way) is a cache of a computed attribute, not something a comparison 'added' to the node."""
+    for k in cls.__mro__:
+        if name in k.__dict__:
+            return hasattr(k.__dict__[name], "__get__") and not isinstance(k.__dict__[name], type(lambda: 0))
+    return False
 
 
 def fingerprint(node):
@@ -370,7 +379,8 @@ def fingerprint(node):
         rec.append(("edited", isinstance(n, gtree.EditedTreeNode)))
         # public instance attributes a comparison must not add or drop (edit / removed / inserted / matched_to ...);
         # private ones are memo fields (_total_size, an instance-level _parent = None left by make_edited)
-        rec.append(tuple(sorted(k for k in getattr(n, "__dict__", {}) if not k.startswith("_"))))
+        rec.append(tuple(sorted(k for k in getattr(n, "__dict__", {})
+                                if not k.startswith("_") and not _is_descriptor_cache(type(n), k))))
         out.append(tuple(rec))
         try:
             kids = list(n.children())
@@ -400,7 +410,9 @@ class Monitor:
         self.depth = 0
         self.log = log
         self.multi = 0
-        self.site_suffix = {}    # class name -> suffix that makes the site more specific (e.g. "+initial_bounds")
+        self.site_of = {}        # id(object) -> role-based site name (robust against class renames), e.g. the
+        #                          container of a matcher / search session; everything else is named by its class
+        self.active = set()      # ids of objects with a tighten_bounds() call in progress
         self.known = set()       # (kind, site) of listed findings
         self.known_hit = None
 
@@ -412,7 +424,7 @@ class Monitor:
         return self.rng.random() < self.p
 
     def _fail(self, kind, obj, detail):
-        site = type(obj).__name__ + self.site_suffix.get(type(obj).__name__, "")
+        site = self.site_of.get(id(obj)) or type(obj).__name__
         if (kind, site) in self.known:
             # a listed finding must not end the session (it would mask whatever else happens in it)
             if self.known_hit is None:
@@ -450,6 +462,17 @@ class Monitor:
         return None
 
     def around(self, obj, orig):
+        if id(obj) in self.active:
+            # an inner call on the same object (self-recursion, or a raw step reached through super() inside a
+            # repeat-until-tightened wrapper): part of the step in progress, not a refinement step of its own
+            return orig(obj)
+        self.active.add(id(obj))
+        try:
+            return self._around(obj, orig)
+        finally:
+            self.active.discard(id(obj))
+
+    def _around(self, obj, orig):
         self.calls += 1
         before = after = None
         if self.decide():
